@@ -120,7 +120,9 @@ def from_data_contract():
         tags = SList([SStr(z3.Const("tag", S))])
 
         def inv(I2, loc, seen):
-            res, be = loc["result"], loc["body_errors"]
+            # the endpoint under construction and the list of body errors the function made (the last list it created),
+            # whatever the locals are called
+            res, be = W.endpoint, lists[-1]
             bl = res.fields["bodies"]
             e = base[g]
             return z3.And(z3.Implies(g < z3.Length(seen), z3.If(is_err(e), z3.IsMember(e, be.members), z3.IsMember(e, bl.members))),
@@ -132,10 +134,11 @@ def from_data_contract():
             cur.count = I2.fresh("count", z3.IntSort())
             return cur
 
-        def havoc_result(I2, cur):
-            havoc_list(I2, cur.fields["bodies"])
-            return cur
-        I.loop_specs[(Q, 0)] = LoopSpec(inv, {"result": havoc_result, "body_errors": havoc_list})
+        def havoc_ghost(I2):
+            havoc_list(I2, W.endpoint.fields["bodies"])
+            havoc_list(I2, lists[-1])
+            return None
+        I.loop_specs[(Q, 0)] = LoopSpec(inv, {"__ghost__": havoc_ghost})
         W.bodies0 = z3.IntVal(0)
         kw = dict(data=data, path=path, method=method, tags=tags, schemas=SOpaque("schemas"), parameters=SOpaque("parameters"),
                   request_bodies=SOpaque("request_bodies"), responses=SOpaque("responses"), config=SOpaque("config"))
